@@ -47,11 +47,24 @@ RULE = ("case 'conv' = (generated DBC matrix with unique frame names, signal nam
         "and must be all of them without the flag, exactly those still carried by something with it.  Lists documented as lists of NAMES "
         "(deleteFrame, setFrameFd, unsetFrameFd, deleteSignalAttributes, deleteFrameAttributes, the old names of renameEcu / renameFrame / "
         "renameSignal) hold, in a quarter of the cases, an entry with `*`, `?` or `[..]` that is no name but would select existing items as a "
-        "pattern (alone, before or after the names): nothing may happen for it.")
-PARTIAL = ["compressFrame (C16), signalNameFromAttrib and the ARXML/PDU-container rewrite are not modelled",
+        "pattern (alone, before or after the names): nothing may happen for it.  Two streams with input files that are no DBC files: "
+        "(buses) a KCD file with one to three named buses, a third of them without a frame, no option, an option that removes every frame of "
+        "a bus (skipLongDlc below every length, deleteFrame of all its frames) or one or two other options; one bus is judged as usual from "
+        "out_<bus>.dbc, and the set of output files must be one file per bus of the input (what load + dump through the API write).  "
+        "(container) an ARXML file with a CAN frame holding a CONTAINER-I-PDU (short or long header; one to four contained PDUs with header "
+        "ids 0, small and large, one to three signals each) and at most one plain frame, alone, with --ignorePduContainer (judged as "
+        "--deleteFrame of the container frame) or with one frame-level option; judged against the multiplexed image of the container frame "
+        "(container_image: Header_ID the multiplexer, Header_DLC, every signal of a contained PDU behind the header and multiplexed with the "
+        "header id of its PDU).")
+PARTIAL = ["compressFrame (C16) and signalNameFromAttrib are not modelled; the PDU-container rewrite has no function in the Lean model: its documented "
+           "result (container_image in harness/props/c18.py) is computed by the harness and handed to the judge as the input matrix; containers "
+           "without header and contained PDUs without header id are not generated",
+           "KCD input (several buses): only what KCD carries (no FD flag, no attributes, no zero-length signals, no multiplexed frames - the KCD "
+           "writer loops over 2^width values of a multiplexer); ARXML input: several plain frames are not generated (the ARXML reader does not "
+           "keep their file order)",
            "deleteObsoleteDefines has no field in the model: judged as the call without it on frames, signals, attribute values and ECUs; the "
            "expected attribute definitions are computed by the harness (definitions_expected) and handed to the Lean judge as the name of a "
-           "frame of the input, only for calls whose other options leave all frames, signals and ECUs in place", "only DBC input and output files", "the selection options are specified by the model of copy.py (C12), not by "
+           "frame of the input, only for calls whose other options leave all frames, signals and ECUs in place", "only DBC output files; DBC input files except for the streams buses (KCD) and container (ARXML)", "the selection options are specified by the model of copy.py (C12), not by "
            "an independent clause",
            "merge: whole files, frame= and ecu= selectors, reduced to the --frames clause over the union of the files.  That clause lists exactly "
            "the ECUs the selected frames refer to, so an ECU-list entry without a frame cannot be expected through it: the ECU list of the main "
@@ -468,6 +481,13 @@ def reduce_real(real):
                 return None                  # merge_ecu_listing_note
         o["frames"] = names
         return m, o
+    if real["kind"] == "buses":
+        return dict(real["buses"][real["pick"]][1], ecus=bus_ecus(real)), o
+    if real["kind"] == "container":
+        m = {"ecus": [], "frames": real["plain"] + [container_image(real)]}      # the rewritten frame is the last one of the matrix
+        if real["ignore"]:
+            o["deleteFrame"] = list(o.get("deleteFrame", [])) + [real["frame"]["name"]]
+        return m, o
     if real["kind"] == "defines":
         m = real["main"]
         if definitions_judged(real):
@@ -528,6 +548,174 @@ def definitions_expected(real):
 def definitions_observed(db):
     return {"frame": [d for d in db.frame_defines if d in USER_ATTRS], "signal": [d for d in db.signal_defines if d in USER_ATTRS],
             "ecu": [d for d in db.ecu_defines if d in ECU_ATTRS]}
+
+# ---------------------------------------------------------------------------------------------------------------------
+# Input files that are no DBC files (kinds "buses" and "container"): the part of convert() that only runs for them.
+# (buses) a KCD file with one to three named buses, some of them without any frame (from the start, or because the options remove
+# every frame): convert() is documented to write what load + dump through the API writes, i.e. one output file out_<bus>.dbc per bus of
+# the input.  One bus (real["pick"]) is judged against the model in the usual way (the ECU list of a KCD file is one list for all buses);
+# the set of output files is observed too: a missing or additional file is reported through "raised".  What KCD does not carry (FD flag,
+# attributes, signals without bits, the order of the signals in a multiplexed frame) is not generated here.
+# (container) an ARXML file with a CAN frame that holds a CONTAINER-I-PDU (short or long header, little-endian header) with one to
+# four contained PDUs (header ids 0, small, large; one to three signals each), next to it at most one plain frame with an I-SIGNAL-I-PDU: without
+# --ignorePduContainer the output holds the documented multiplexed image of the container frame (container_image: Header_ID the
+# multiplexer, Header_DLC, the signals of every contained PDU behind the header and multiplexed with the header id of their PDU), with
+# it the output is that of --deleteFrame=<container frame>; alone or with one frame-level option.
+# ---------------------------------------------------------------------------------------------------------------------
+BUS_NAMES = ["Powertrain", "Diagnosis", "Body_1"]
+BUS_OPTIONS = [x for x in OPTIONS if x != "frames"]        # a frame name of one bus is unknown to the others: --frames raises there
+
+
+def bus_ecus(real):
+    out = []
+    for _, m in real["buses"]:
+        out += [e for e in m["ecus"] if e not in out]
+    return out
+
+
+def gen_bus_matrix(rng, empty):
+    m = gen_matrix(rng)
+    frames = []
+    for f in ([] if empty else m["frames"]):
+        sigs = [dict(s, attrs=[kv for kv in s["attrs"] if kv[0] == "signed"]) for s in f["sigs"] if s["size"]]
+        frames.append(dict(f, fd=False, sigs=sigs, attrs=[]))
+    return {"ecus": m["ecus"], "frames": frames}
+
+
+def gen_buses(rng):
+    names = rng.sample(BUS_NAMES, rng.choice([1, 2, 2, 3]))
+    buses = [[n, gen_bus_matrix(rng, rng.random() < 0.3)] for n in names]
+    all_frames = {"ecus": bus_ecus({"buses": buses}), "frames": [f for _, m in buses for f in m["frames"]]}
+    o = {}
+    r = rng.random()
+    if all_frames["frames"] and r > 0.25:
+        if r < 0.55:
+            # an option that takes every frame of one bus (or of all) away
+            k = rng.choice(["skipLongDlc", "deleteFrame"])
+            one = rng.choice([m for _, m in buses if m["frames"]])
+            o[k] = rng.choice([0, min(f["size"] for f in one["frames"]) - 1]) if k == "skipLongDlc" else frame_names(one)
+        else:
+            for name in rng.sample(BUS_OPTIONS, rng.choice([1, 1, 2])):
+                o[name] = gen_option(rng, all_frames, name)
+    return {"kind": "buses", "buses": buses, "pick": rng.randrange(len(buses)), "o": o}
+
+
+def bus_files(real):
+    return sorted("out_%s.dbc" % n for n, _ in real["buses"])
+
+
+def gen_container(rng):
+    long_header = rng.random() < 0.3
+    ids = rng.sample([0, 0, 0, 1, 2, 5, 0x7F, 0x1234, 0xFFFFFF], 4)
+    pdus = []
+    signo = 0
+    for k in range(rng.randint(1, 4)):
+        if ids[k] in [p["id"] for p in pdus]:
+            continue
+        sigs = []
+        pos = 0
+        for _ in range(rng.randint(1, 3)):
+            w = rng.choice([1, 4, 8, 8, 16])
+            pos += rng.choice([0, 0, 8])
+            sigs.append({"name": "PSig%d" % signo, "start": pos, "size": w})
+            signo += 1
+            pos += w
+        pdus.append({"name": "Pdu%d" % k, "id": ids[k], "size": (pos + 7) // 8, "sigs": sigs})
+    frame = {"name": rng.choice(["ContainerFrame", "Frame_c", "Msg9"]), "id": rng.randrange(1, 0x7FF), "size": rng.choice([16, 32, 64])}
+    plain = []
+    for k in range(rng.choice([0, 1, 1])):         # one: the order in which the ARXML reader lists several frames is not that of the file
+        arbid = rng.choice([i for i in range(0x100, 0x110) if i != frame["id"] and all(i != f["id"] for f in plain)])
+        sigs = [{"name": "QSig%d_%d" % (k, j), "start": 16 * j, "size": rng.choice([4, 8, 16]), "receivers": [], "attrs": []} for j in range(1)]
+        plain.append({"name": "Plain%d" % k, "id": arbid, "ext": False, "size": 8, "fd": False, "tx": [], "sigs": sigs, "attrs": []})
+    real = {"kind": "container", "header": "LONG-HEADER" if long_header else "SHORT-HEADER", "frame": frame, "pdus": pdus, "plain": plain,
+            "ignore": rng.random() < 0.2, "o": {}}
+    if not real["ignore"] and rng.random() < 0.5:
+        name = rng.choice(SAFE_WITH_SIGNALS)
+        real["o"][name] = gen_option(rng, {"ecus": [], "frames": plain + [container_image(real)]}, name)
+    return real
+
+
+def container_image(real):
+    """the documented multiplexed image of the container frame"""
+    id_bits, dlc_bits = (32, 32) if real["header"] == "LONG-HEADER" else (24, 8)
+    sigs = [{"name": "Header_ID", "start": 0, "size": id_bits, "receivers": [], "attrs": [["mux", "M"], ["signed", "1"]]},
+            {"name": "Header_DLC", "start": id_bits, "size": dlc_bits, "receivers": [], "attrs": [["signed", "1"]]}]       # as the ARXML reader makes them
+    for p in real["pdus"]:
+        for s in p["sigs"]:
+            sigs.append({"name": s["name"], "start": s["start"] + id_bits + dlc_bits, "size": s["size"], "receivers": [], "attrs": [["mux", "m%d" % p["id"]]]})
+    f = real["frame"]
+    return {"name": f["name"], "id": f["id"], "ext": False, "size": f["size"], "fd": True, "tx": [], "sigs": sigs, "attrs": []}
+
+
+def container_arxml(real):
+    root = "/Demo"
+    frame = real["frame"]
+    header_tag = "HEADER-ID-LONG-HEADER" if real["header"] == "LONG-HEADER" else "HEADER-ID-SHORT-HEADER"
+    pdus = [(p["name"], p, True) for p in real["pdus"]] + [("Pdu_" + f["name"], {"size": f["size"], "sigs": f["sigs"]}, False) for f in real["plain"]]
+    sig_names = [s["name"] for _, p, _ in pdus for s in p["sigs"]]
+
+    def mapping(s):
+        return ("<I-SIGNAL-TO-I-PDU-MAPPING><SHORT-NAME>Map_%s</SHORT-NAME><I-SIGNAL-REF DEST=\"I-SIGNAL\">%s/I_SIGNALS/%s</I-SIGNAL-REF>"
+                "<PACKING-BYTE-ORDER>MOST-SIGNIFICANT-BYTE-LAST</PACKING-BYTE-ORDER><START-POSITION>%d</START-POSITION>"
+                "</I-SIGNAL-TO-I-PDU-MAPPING>" % (s["name"], root, s["name"], s["start"]))
+
+    def pdu_xml(name, p, contained):
+        props = ("<CONTAINED-I-PDU-PROPS><COLLECTION-SEMANTICS>LAST-IS-BEST</COLLECTION-SEMANTICS><%s>%d</%s><TRIGGER>ALWAYS</TRIGGER>"
+                 "</CONTAINED-I-PDU-PROPS>" % (header_tag, p["id"], header_tag)) if contained else ""
+        return ("<I-SIGNAL-I-PDU><SHORT-NAME>%s</SHORT-NAME><LENGTH>%d</LENGTH>%s<I-SIGNAL-TO-PDU-MAPPINGS>%s</I-SIGNAL-TO-PDU-MAPPINGS>"
+                "</I-SIGNAL-I-PDU>" % (name, p["size"], props, "".join(mapping(s) for s in p["sigs"])))
+
+    def pdu_triggering(name, p):
+        return ("<PDU-TRIGGERING><SHORT-NAME>PT_%s</SHORT-NAME><I-PDU-REF DEST=\"I-SIGNAL-I-PDU\">%s/PDUS/%s</I-PDU-REF><I-SIGNAL-TRIGGERINGS>%s"
+                "</I-SIGNAL-TRIGGERINGS></PDU-TRIGGERING>" % (name, root, name, "".join(
+                    "<I-SIGNAL-TRIGGERING-REF-CONDITIONAL><I-SIGNAL-TRIGGERING-REF DEST=\"I-SIGNAL-TRIGGERING\">%s/CLUSTER/Bus/Channel/ST_%s"
+                    "</I-SIGNAL-TRIGGERING-REF></I-SIGNAL-TRIGGERING-REF-CONDITIONAL>" % (root, s["name"]) for s in p["sigs"])))
+
+    def frame_triggering(name, arbid, pdu_name, fd):
+        return ("<CAN-FRAME-TRIGGERING><SHORT-NAME>FT_%s</SHORT-NAME><FRAME-REF DEST=\"CAN-FRAME\">%s/FRAME/%s</FRAME-REF><PDU-TRIGGERINGS>"
+                "<PDU-TRIGGERING-REF-CONDITIONAL><PDU-TRIGGERING-REF DEST=\"PDU-TRIGGERING\">%s/CLUSTER/Bus/Channel/PT_%s</PDU-TRIGGERING-REF>"
+                "</PDU-TRIGGERING-REF-CONDITIONAL></PDU-TRIGGERINGS><CAN-ADDRESSING-MODE>STANDARD</CAN-ADDRESSING-MODE>"
+                "<CAN-FRAME-TX-BEHAVIOR>%s</CAN-FRAME-TX-BEHAVIOR><IDENTIFIER>%d</IDENTIFIER></CAN-FRAME-TRIGGERING>"
+                % (name, root, name, root, pdu_name, "CAN-FD" if fd else "CAN-20", arbid))
+
+    def can_frame(name, size, pdu_name, dest):
+        return ("<CAN-FRAME><SHORT-NAME>%s</SHORT-NAME><FRAME-LENGTH>%d</FRAME-LENGTH><PDU-TO-FRAME-MAPPINGS><PDU-TO-FRAME-MAPPING>"
+                "<SHORT-NAME>Map_%s</SHORT-NAME><PACKING-BYTE-ORDER>MOST-SIGNIFICANT-BYTE-LAST</PACKING-BYTE-ORDER>"
+                "<PDU-REF DEST=\"%s\">%s/PDUS/%s</PDU-REF><START-POSITION>0</START-POSITION></PDU-TO-FRAME-MAPPING></PDU-TO-FRAME-MAPPINGS>"
+                "</CAN-FRAME>" % (name, size, pdu_name, dest, root, pdu_name))
+
+    return ("<?xml version=\"1.0\" encoding=\"utf-8\"?>\n<AUTOSAR xsi:schemaLocation=\"http://autosar.org/schema/r4.0 AUTOSAR_4-3-0.xsd\" "
+            "xmlns=\"http://autosar.org/schema/r4.0\" xmlns:xsi=\"http://www.w3.org/2001/XMLSchema-instance\"><AR-PACKAGES><AR-PACKAGE>"
+            "<SHORT-NAME>Demo</SHORT-NAME><AR-PACKAGES>"
+            "<AR-PACKAGE><SHORT-NAME>CLUSTER</SHORT-NAME><ELEMENTS><CAN-CLUSTER><SHORT-NAME>Bus</SHORT-NAME><CAN-CLUSTER-VARIANTS>"
+            "<CAN-CLUSTER-CONDITIONAL><BAUDRATE>500000</BAUDRATE><PHYSICAL-CHANNELS><CAN-PHYSICAL-CHANNEL><SHORT-NAME>Channel</SHORT-NAME>"
+            "<FRAME-TRIGGERINGS>" + frame_triggering(frame["name"], frame["id"], "Container", True) +
+            "".join(frame_triggering(f["name"], f["id"], "Pdu_" + f["name"], False) for f in real["plain"]) + "</FRAME-TRIGGERINGS>"
+            "<I-SIGNAL-TRIGGERINGS>" + "".join(
+                "<I-SIGNAL-TRIGGERING><SHORT-NAME>ST_%s</SHORT-NAME><I-SIGNAL-REF DEST=\"I-SIGNAL\">%s/I_SIGNALS/%s</I-SIGNAL-REF>"
+                "</I-SIGNAL-TRIGGERING>" % (n, root, n) for n in sig_names) + "</I-SIGNAL-TRIGGERINGS>"
+            "<PDU-TRIGGERINGS><PDU-TRIGGERING><SHORT-NAME>PT_Container</SHORT-NAME><I-PDU-REF DEST=\"CONTAINER-I-PDU\">" + root +
+            "/PDUS/Container</I-PDU-REF></PDU-TRIGGERING>" + "".join(pdu_triggering(n, p) for n, p, _ in pdus) + "</PDU-TRIGGERINGS>"
+            "</CAN-PHYSICAL-CHANNEL></PHYSICAL-CHANNELS></CAN-CLUSTER-CONDITIONAL></CAN-CLUSTER-VARIANTS></CAN-CLUSTER></ELEMENTS></AR-PACKAGE>"
+            "<AR-PACKAGE><SHORT-NAME>FRAME</SHORT-NAME><ELEMENTS>" + can_frame(frame["name"], frame["size"], "Container", "CONTAINER-I-PDU") +
+            "".join(can_frame(f["name"], f["size"], "Pdu_" + f["name"], "I-SIGNAL-I-PDU") for f in real["plain"]) + "</ELEMENTS></AR-PACKAGE>"
+            "<AR-PACKAGE><SHORT-NAME>PDUS</SHORT-NAME><ELEMENTS>" + "".join(pdu_xml(n, p, c) for n, p, c in pdus) +
+            "<CONTAINER-I-PDU><SHORT-NAME>Container</SHORT-NAME><LENGTH>%d</LENGTH><CONTAINED-PDU-TRIGGERING-REFS>" % frame["size"] + "".join(
+                "<CONTAINED-PDU-TRIGGERING-REF DEST=\"PDU-TRIGGERING\">%s/CLUSTER/Bus/Channel/PT_%s</CONTAINED-PDU-TRIGGERING-REF>" % (root, p["name"])
+                for p in real["pdus"]) + "</CONTAINED-PDU-TRIGGERING-REFS><CONTAINER-TIMEOUT>0</CONTAINER-TIMEOUT>"
+            "<CONTAINER-TRIGGER>DEFAULT-TRIGGER</CONTAINER-TRIGGER><HEADER-TYPE>" + real["header"] + "</HEADER-TYPE>"
+            "<RX-ACCEPT-CONTAINED-I-PDU>ACCEPT-CONFIGURED</RX-ACCEPT-CONTAINED-I-PDU><THRESHOLD-SIZE>0</THRESHOLD-SIZE></CONTAINER-I-PDU>"
+            "</ELEMENTS></AR-PACKAGE>"
+            "<AR-PACKAGE><SHORT-NAME>I_SIGNALS</SHORT-NAME><ELEMENTS>" + "".join(
+                "<I-SIGNAL><SHORT-NAME>%s</SHORT-NAME><DATA-TYPE-POLICY>OVERRIDE</DATA-TYPE-POLICY><LENGTH>%d</LENGTH>"
+                "<SYSTEM-SIGNAL-REF DEST=\"SYSTEM-SIGNAL\">%s/SYSTEM_SIGNALS/%s</SYSTEM-SIGNAL-REF></I-SIGNAL>" % (s["name"], s["size"], root, s["name"])
+                for _, p, _ in pdus for s in p["sigs"]) + "</ELEMENTS></AR-PACKAGE>"
+            "<AR-PACKAGE><SHORT-NAME>SYSTEM_SIGNALS</SHORT-NAME><ELEMENTS>" + "".join(
+                "<SYSTEM-SIGNAL><SHORT-NAME>%s</SHORT-NAME></SYSTEM-SIGNAL>" % n for n in sig_names) + "</ELEMENTS></AR-PACKAGE>"
+            "<AR-PACKAGE><SHORT-NAME>ECUC</SHORT-NAME><ELEMENTS><ECUC-MODULE-CONFIGURATION-VALUES><SHORT-NAME>IpduM</SHORT-NAME>"
+            "<CONTAINER-I-PDU-HEADER-BYTE-ORDER>MOST-SIGNIFICANT-BYTE-LAST</CONTAINER-I-PDU-HEADER-BYTE-ORDER>"
+            "</ECUC-MODULE-CONFIGURATION-VALUES></ELEMENTS></AR-PACKAGE>"
+            "</AR-PACKAGES></AR-PACKAGE></AR-PACKAGES></AUTOSAR>\n")
 
 
 def gen_defines(rng):
@@ -648,7 +836,7 @@ def gen(rng, tier, shard, nshards):
             o[name] = gen_option(rng, m, name)
         yield {"op": "conv", "c": {"m": m, "o": o, "cli": rng.random() < 0.4}}
     extra = {"quick": 400, "thorough": 4000}[tier] // nshards + 1
-    for make in (gen_merge, gen_signals, gen_defines):
+    for make in (gen_merge, gen_signals, gen_defines, gen_buses, gen_container):
         for _ in range(extra):
             case = make_case(make(rng), rng.random() < 0.4)
             if case is not None:
@@ -705,6 +893,10 @@ def real_call(c, d):
     elif real["kind"] == "defines":
         if real["flag"]:
             extra["deleteObsoleteDefines"] = True
+    elif real["kind"] == "buses":
+        return None, real["o"], extra
+    elif real["kind"] == "container":
+        return None, real["o"], ({"ignorePduContainer": True} if real["ignore"] else {})
     else:
         extra["signals"] = ",".join(real["signals"])
     return real["main"], real["o"], extra
@@ -716,11 +908,25 @@ def observe(case):
     try:
         m_in, o_in, extra = real_call(c, d)
         real = c.get("real") or {}
-        db = build(m_in, real.get("ecu_attrs"))
-        src = os.path.join(d, "in.dbc")
-        dst = os.path.join(d, "out.dbc")
-        with open(src, "wb") as f:
-            canmatrix.formats.dump(db, f, "dbc")
+        os.mkdir(os.path.join(d, "o"))
+        dst = os.path.join(d, "o", "out.dbc")
+        files, result = ["out.dbc"], dst
+        if real.get("kind") == "buses":
+            src = os.path.join(d, "in.kcd")
+            canmatrix.formats.dumpp(collections.OrderedDict((n, build(bm)) for n, bm in real["buses"]), src)
+            files = bus_files(real)
+            result = os.path.join(d, "o", "out_%s.dbc" % real["buses"][real["pick"]][0])
+        elif real.get("kind") == "container":
+            src = os.path.join(d, "in.arxml")
+            with open(src, "w") as f:
+                f.write(container_arxml(real))
+            files = ["out_Bus.dbc"]
+            result = os.path.join(d, "o", files[0])
+        else:
+            db = build(m_in, real.get("ecu_attrs"))
+            src = os.path.join(d, "in.dbc")
+            with open(src, "wb") as f:
+                canmatrix.formats.dump(db, f, "dbc")
         raised = None
         sink = io.StringIO()
         with contextlib.redirect_stdout(sink), contextlib.redirect_stderr(sink):
@@ -739,7 +945,13 @@ def observe(case):
                 raised = type(e).__name__ + ": " + str(e)[:120]
             out = None
             if raised is None:
-                with open(dst, "rb") as f:
+                # the files of the output: one per bus of the input (out_<bus>.dbc; a DBC input has one bus without a name: out.dbc),
+                # as load + dump through the API write them
+                written = sorted(os.listdir(os.path.join(d, "o")))
+                if written != sorted(files):
+                    raised = "output files %s instead of %s" % (written, sorted(files))
+            if raised is None:
+                with open(result, "rb") as f:
                     db2 = canmatrix.formats.load_flat(f, "dbc")
                 out = abstract(db2)
                 if real and definitions_judged(real):
@@ -765,7 +977,21 @@ def features(case, impl):
     yield "via=%s" % ("cli" if c.get("cli") else "convert()")
     for k in o:
         yield "opt:" + k
-    m_in = real["main"] if real else c["m"]
+    m_in = real["main"] if real and "main" in real else c["m"]
+    if real and real["kind"] == "buses":
+        yield "input:kcd file, buses=%d" % len(real["buses"])
+        empty = [not bm["frames"] for _, bm in real["buses"]]
+        yield "buses:%s without a frame in the input" % ("none" if not any(empty) else ("all" if all(empty) else "some"))
+        yield "buses:judged bus %s" % ("has no frame in the input" if empty[real["pick"]] else "has frames")
+        if impl.get("out") is not None and not impl["out"]["frames"] and not empty[real["pick"]]:
+            yield "buses:the options remove every frame of the judged bus"
+    if real and real["kind"] == "container":
+        yield "input:arxml file with a PDU container (%s)" % real["header"]
+        yield "container:contained PDUs=%d" % len(real["pdus"])
+        yield "container:plain frames=%d" % len(real["plain"])
+        for pd in real["pdus"]:
+            yield "container:header id %s" % ("0" if pd["id"] == 0 else ("< 256" if pd["id"] < 256 else ">= 256"))
+        yield "opt:ignorePduContainer" if real["ignore"] else "container:rewritten as multiplexed frame"
     by_role = signals_by_role(m_in)
     if by_role:
         yield "input:multiplexed frame"
@@ -880,6 +1106,23 @@ def shrink_real(real):
     elif real["kind"] == "defines":
         for j in range(len(real["ecu_attrs"])):
             yield dict(real, ecu_attrs=real["ecu_attrs"][:j] + real["ecu_attrs"][j + 1:])
+    elif real["kind"] == "buses":
+        for k, (n, bm) in enumerate(real["buses"]):
+            if k != real["pick"]:
+                yield dict(real, buses=real["buses"][:k] + real["buses"][k + 1:], pick=real["pick"] - (k < real["pick"]))
+            for bm2 in less_of(bm):
+                yield dict(real, buses=real["buses"][:k] + [[n, bm2]] + real["buses"][k + 1:])
+        return
+    elif real["kind"] == "container":
+        for k in range(len(real["plain"])):
+            yield dict(real, plain=real["plain"][:k] + real["plain"][k + 1:])
+        for k, pd in enumerate(real["pdus"]):
+            if len(real["pdus"]) > 1:
+                yield dict(real, pdus=real["pdus"][:k] + real["pdus"][k + 1:])
+            for j in range(len(pd["sigs"])):
+                if len(pd["sigs"]) > 1:
+                    yield dict(real, pdus=real["pdus"][:k] + [dict(pd, sigs=pd["sigs"][:j] + pd["sigs"][j + 1:])] + real["pdus"][k + 1:])
+        return
     else:
         for j in range(len(real["signals"])):
             if len(real["signals"]) > 1:
@@ -936,6 +1179,14 @@ def recipe(case):
         return ("canconvert " + " ".join(cli_args(real["o"]) + ["--merge=" + arg]) + " in.dbc out.dbc   (in.dbc = canmatrix.formats.dump("
                 "props.c18.build(case['c']['real']['main']), 'dbc'), other<k>.dbc likewise from case['c']['real']['others'][k]; expected: "
                 "canconvert " + " ".join(cli_args(c["o"])) + " on the file holding the frames of all of them)")
+    if real and real["kind"] == "buses":
+        return ("canconvert " + " ".join(cli_args(real["o"])) + " in.kcd out.dbc   (in.kcd = canmatrix.formats.dumpp({name: props.c18.build(m) "
+                "for name, m in case['c']['real']['buses']}, 'in.kcd'); expected: the files " + ", ".join(bus_files(real)) + "; judged: out_%s.dbc "
+                "against case['c']['m'])" % real["buses"][real["pick"]][0])
+    if real and real["kind"] == "container":
+        return ("canconvert " + " ".join(cli_args(real["o"]) + ["--ignorePduContainer"] * real["ignore"]) + " in.arxml out.dbc   (in.arxml = "
+                "props.c18.container_arxml(case['c']['real']); expected: out_Bus.dbc with the multiplexed image of the container frame, "
+                "case['c']['m'], under the options case['c']['o'])")
     if real and real["kind"] == "defines":
         return ("canconvert " + " ".join(cli_args(real["o"]) + ["--deleteObsoleteDefines"] * real["flag"]) + " in.dbc out.dbc   (in.dbc = "
                 "canmatrix.formats.dump(props.c18.build(case['c']['real']['main'], case['c']['real']['ecu_attrs']), 'dbc'); expected: what the call "
